@@ -1,8 +1,9 @@
 /-
 Decidable side conditions used by the C18 theorems: well-formedness of a value
-with respect to the classes that exist (`wf`), the region in which the code
-serializer round-trips (`valOK`), and absence of import name clashes
-(`importsOK`).  All are `Bool` functions, so concrete inputs are checked by
+with respect to the classes that exist (`wf`), the property's own domain
+(`domOK`), the two regions in which the code serializer still does not
+round-trip (`setFree`: a non-empty set; `importsOK`: import name clashes), and
+their conjunction as used by the induction (`valOK`).  All are `Bool` functions, so concrete inputs are checked by
 `decide`.
 -/
 import XsdataModel.Code.Pycode
@@ -42,6 +43,7 @@ def wf (W : World) : Val → Bool
   | .opaque c _ _ _ => reachable W c && c.module != builtinsMod
   | .list xs => wfL W xs
   | .tuple xs => wfL W xs
+  | .set _ xs => wfL W xs
   | .dict kvs => wfKV W kvs
   | _ => true
 def wfL (W : World) : List Val → Bool
@@ -51,9 +53,6 @@ def wfKV (W : World) : List (Val × Val) → Bool
   | [] => true
   | (k, v) :: r => wf W k && wf W v && wfKV W r
 end
-
-/-- no raw character that the `"…"` literal would read differently -/
-def plainDq (t : Str) : Bool := t.all fun c => !(c = '\\') && !rawBad c
 
 /-- attributes of `init=False` fields hold the class default -/
 def initFalseOK : List FieldSpec → List Val → Bool
@@ -65,26 +64,25 @@ def notNan : Option NumV → Bool
   | _ => true
 
 mutual
-/-- the region in which `PycodeSerializer` as it stands round-trips:
-no NaN, no non-empty tuple, enums are module-level, QName text needs no
-escaping, opaque values print their class by its qualified name, dict keys
-are hashable, `init=False` attributes are at their default. -/
-def valOK (cfg : Cfg) (W : World) : Val → Bool
+/-- the region in which `PycodeSerializer` as it stands round-trips
+(= `domOK` and `setFree`, see `valOK_of_dom_setFree`): no NaN, no non-empty
+set, opaque values print their class by its qualified name, dict keys are
+hashable, `init=False` attributes are at their default. -/
+def valOK (W : World) : Val → Bool
   | .float n _ => notNan (some n)
   | .opaque c callee _ n => notNan n && callee == c.path
-  | .qname t _ => cfg.qnameFix || plainDq t
-  | .enum c _ => cfg.enumFix || c.path.length == 1
-  | .tuple xs => (cfg.tupleFix || xs.isEmpty) && valOKL cfg W xs
-  | .list xs => valOKL cfg W xs
-  | .dict kvs => valOKKV cfg W kvs
-  | .model c attrs => initFalseOK (W.fieldsOf c) attrs && valOKL cfg W attrs
+  | .set _ xs => xs.isEmpty
+  | .tuple xs => valOKL W xs
+  | .list xs => valOKL W xs
+  | .dict kvs => valOKKV W kvs
+  | .model c attrs => initFalseOK (W.fieldsOf c) attrs && valOKL W attrs
   | _ => true
-def valOKL (cfg : Cfg) (W : World) : List Val → Bool
+def valOKL (W : World) : List Val → Bool
   | [] => true
-  | x :: xs => valOK cfg W x && valOKL cfg W xs
-def valOKKV (cfg : Cfg) (W : World) : List (Val × Val) → Bool
+  | x :: xs => valOK W x && valOKL W xs
+def valOKKV (W : World) : List (Val × Val) → Bool
   | [] => true
-  | (k, v) :: r => hashable k && valOK cfg W k && valOK cfg W v && valOKKV cfg W r
+  | (k, v) :: r => hashable k && valOK W k && valOK W v && valOKKV W r
 end
 
 mutual
@@ -96,6 +94,7 @@ def domOK (W : World) : Val → Bool
   | .float n _ => notNan (some n)
   | .opaque c callee _ n => notNan n && callee == c.path
   | .tuple xs => domOKL W xs
+  | .set _ xs => domOKL W xs
   | .list xs => domOKL W xs
   | .dict kvs => domOKKV W kvs
   | .model c attrs => initFalseOK (W.fieldsOf c) attrs && domOKL W attrs
@@ -109,36 +108,30 @@ def domOKKV (W : World) : List (Val × Val) → Bool
 end
 
 mutual
-/-- the value stays clear of the three value-level defects of the serializer:
-no member of an enum nested in a class, no non-empty tuple, no QName whose
-text contains a backslash, a double quote, CR, LF or NUL (each exclusion is
-lifted when `cfg` applies the corresponding repair) -/
-def clean (cfg : Cfg) : Val → Bool
-  | .enum c _ => cfg.enumFix || c.path.length == 1
-  | .tuple xs => (cfg.tupleFix || xs.isEmpty) && cleanL cfg xs
-  | .qname t _ => cfg.qnameFix || plainDq t
-  | .list xs => cleanL cfg xs
-  | .dict kvs => cleanKV cfg kvs
-  | .model _ attrs => cleanL cfg attrs
+/-- the value contains no non-empty `set` / `frozenset` (they are still
+rendered as list displays) -/
+def setFree : Val → Bool
+  | .set _ xs => xs.isEmpty
+  | .tuple xs => setFreeL xs
+  | .list xs => setFreeL xs
+  | .dict kvs => setFreeKV kvs
+  | .model _ attrs => setFreeL attrs
   | _ => true
-def cleanL (cfg : Cfg) : List Val → Bool
+def setFreeL : List Val → Bool
   | [] => true
-  | x :: xs => clean cfg x && cleanL cfg xs
-def cleanKV (cfg : Cfg) : List (Val × Val) → Bool
+  | x :: xs => setFree x && setFreeL xs
+def setFreeKV : List (Val × Val) → Bool
   | [] => true
-  | (k, v) :: r => clean cfg k && clean cfg v && cleanKV cfg r
+  | (k, v) :: r => setFree k && setFree v && setFreeKV r
 end
 
 /-- every import that binds the first name of a reference comes from the
 module of the class the reference means -/
-def importsOKe (cfg : Cfg) (e : PyExpr) : Bool :=
-  (e.refs cfg).all fun pc => e.types.all fun t =>
+def importsOKe (e : PyExpr) : Bool :=
+  e.refs.all fun pc => e.types.all fun t =>
     t.module == builtinsMod || t.path.headD [] != pc.1.headD [] || t.module == pc.2.module
 
-def importsOKC (cfg : Cfg) (W : World) (v : Val) : Bool := importsOKe cfg (render W v)
-
-/-- for the code under test -/
-abbrev importsOK := importsOKC Cfg.asIs
+def importsOK (W : World) (v : Val) : Bool := importsOKe (render W v)
 
 /-- all references of `e` resolve in `env` to the classes they mean -/
 def EnvGood (W : World) (env : Env) (refs : List (List Str × ClsRef)) : Prop :=
